@@ -3,4 +3,5 @@ pub mod flood;
 pub mod raw;
 pub mod rawpeer;
 pub mod sim;
+pub mod threaded;
 pub mod window;
